@@ -5,7 +5,6 @@ open Gallia Gallia.Proto Gallia.UdsResp
 /-
   Line protocol of the C02 model driver:
     dec <hex>      ->  reject <reason> | raw <hex> | ok <Class> <field>=<value>... pdu=<hex of encodeResp>
-    wf <hex>       ->  like dec, plus ` rt=<1|0>`: decodeResp (encodeResp r) = ok r  (re-decoding the re-encoding)
   integers are printed in decimal, byte strings as lower-case hex (`-` = empty), absent optionals as `none`.
 -/
 
@@ -52,16 +51,6 @@ def step (line : String) : String :=
   match words line with
   | ["dec", h] => match parseHex h with
     | some b => showDec b
-    | none => "bad-op"
-  | ["wf", h] => match parseHex h with
-    | some b =>
-      match decodeResp b with
-      | .ok r =>
-        let rt := match decodeResp (encodeResp r) with
-          | .ok r' => decide (r' = r)
-          | .error _ => false
-        s!"{showDec b} rt={if rt then 1 else 0}"
-      | .error _ => showDec b
     | none => "bad-op"
   | _ => "bad-op"
 
